@@ -100,7 +100,9 @@ def check_written(ctx, shx, out, case):
             common.add_violation(ctx, 'a written line is neither instruction, comment nor continuation (indented text without preceding =)',
                                  dict(case, line=l, line_number=n + 1), 'no such line', l[:40])
             return
-        cont = '=' in body
+        free = l[:3].upper() == 'REM' or l[:4].upper() == 'TITL'
+        # free text is not continued by SHELXL; the writer breaks it only when it is too long, and then the break is ' =' at the end
+        cont = ('=' in body) if not free else (len(l) >= 70 and l.rstrip().endswith(' ='))
         if cont and not body.rstrip().endswith(' ='):
             common.add_violation(ctx, "a broken line does not end in ' ='", dict(case, line=l, line_number=n + 1), "' =' at the end", body[-10:])
             return
@@ -121,8 +123,12 @@ def check_written(ctx, shx, out, case):
         for l in lines:
             if not cont and (not l.strip() or l[0] == ' '):
                 continue
-            body = l.split('!')[0] if not l[:3].upper() == 'REM' and not l[:4].upper() == 'TITL' else l
-            c = '=' in body
+            free = (l[:3].upper() == 'REM' or l[:4].upper() == 'TITL') and not cont
+            body = l.split('!')[0] if not free else l
+            c = ('=' in body) if not free else (len(l) >= 70 and l.rstrip().endswith(' ='))
+            if free and not c:
+                res.append(l.split())
+                continue
             cur += body.split('=')[0].split() if c else body.split()
             if not c:
                 res.append(cur)
